@@ -329,6 +329,9 @@ pub struct World {
     pub matrix: bool,
     pub prop: String,
     pub signal: Option<calloop::LoopSignal>,
+    /// adapters owned by callback closures that have not been dropped yet
+    pub owned_fds: Vec<RawFd>,
+    pub owned_cells: Vec<std::rc::Weak<RefCell<Option<OwnedAd>>>>,
 }
 
 thread_local! {
@@ -399,6 +402,8 @@ impl World {
             matrix: false,
             prop: String::new(),
             signal: None,
+            owned_fds: vec![],
+            owned_cells: vec![],
             live_trace: std::env::var_os("CVERIF_LIVE_TRACE").is_some(),
         }
     }
@@ -441,5 +446,25 @@ impl World {
     }
     pub fn touched_now(&self, uid: Uid) -> bool {
         self.srcs[uid].touched_at == self.dispatch_no && self.dispatch_no != 0
+    }
+}
+
+/// an Async adapter of the same loop owned by a callback closure: it is dropped when the loop
+/// drops the callback (or, an adapter being a handle to the loop, by the harness before it drops
+/// the loop: the reference cycle is the user's)
+pub struct OwnedAd {
+    pub ad: Option<calloop::io::Async<'static, super::zoo::FdX>>,
+    pub _peer: std::os::fd::OwnedFd,
+    pub raw: RawFd,
+}
+
+impl Drop for OwnedAd {
+    fn drop(&mut self) {
+        drop(self.ad.take());
+        let raw = self.raw;
+        try_w(|w| {
+            w.owned_fds.retain(|f| *f != raw);
+            w.count("callback_owned_adapter_dropped");
+        });
     }
 }
